@@ -96,6 +96,7 @@ def cases(ctx):
                "normalize": [None, "by_overall", "by_min"][int(rng.integers(0, 3))], "boot": boot, "bm": str(rng.choice(["quantile", "bc", "bca"])),
                "nb_samples": int(rng.choice([20, 50, 120])), "strat": [None, "by_group", "by_label"][int(rng.integers(0, 3))],
                "alpha": float(rng.choice([0.05, 0.1, 0.32])), "sc": sc, "ec": ec, "default_cfg": bool(rng.random() < 0.2),
+               "index": str(rng.choice(["range", "range", "shuffled", "duplicated", "strings"])), "extra_col": bool(rng.random() < 0.3),
                "_seed": int(rng.integers(1 << 31))}
 
 
@@ -139,6 +140,16 @@ def execute(ctx, case):
     labels = np.where(lab == 1, "y", "n") if case["strlab"] else lab
     pos_label = "y" if case["strlab"] else 1
     df = pd.DataFrame({**cols, "score": score, "label": labels})
+    # the frame's index and unrelated columns are irrelevant to the result: rows are what counts
+    idx_kind = case.get("index", "range")
+    if idx_kind == "shuffled":
+        df.index = np.random.default_rng(case["_seed"]).permutation(len(df)) * 3 + 7
+    elif idx_kind == "duplicated":
+        df.index = np.arange(len(df)) // 2
+    elif idx_kind == "strings":
+        df.index = [f"row{(i * 7919) % len(df)}" for i in range(len(df))]
+    if case.get("extra_col"):
+        df.insert(0, "unrelated", np.arange(len(df))[::-1])
     thr = np.asarray(case["thr"], dtype=float)
     form = case["form"]
     thr_arg = thr.tolist() if form == "list" else thr if form == "array" else float(thr[0]) if form == "scalar" else np.asarray(float(thr[0]))
